@@ -202,7 +202,7 @@ MANIFEST_TEXT = {
     "C06": {
         "technique": "property-based testing (rapid) with an independent reference decoder as oracle: emitted MessageSent/DepositForBurn content vs the request, replacement event vs original event",
         "level": "Exploration: generated requests at every point of generated histories; byte-exact comparison through an independent codec.",
-        "note": "D1 canonical 20-byte submitters; the 'same burn token' clause is judged for lower-case burn tokens.",
+        "note": "D1 canonical 20-byte submitters (as the quantifier says); the 'same burn token' clause is judged for every spelling (found F10).",
         "ref": "DESIGN.md section 3 C06",
     },
     "C09": {
@@ -226,16 +226,37 @@ MANIFEST_TEXT = {
     "C08": {
         "technique": "property-based testing (rapid) of deposits with generated precondition-falsification and boundary amounts against the reference model's conjunction, in both ledger denom-case modes and with injected dependency faults",
         "level": "Exploration: both directions of 'exactly when' incl. amount=limit / limit+1 and body 132=max / 131 boundaries on generated configurations.",
-        "note": "A4/D5: minting denom and verdict-relevant limits are lower case; dependency behaviour is the model ledger's.",
+        "note": "Minting denoms with upper-case letters and case-variant limits are generated (A4 lifted); dependency behaviour is the model ledger's.",
         "ref": "DESIGN.md section 3 C08",
     },
     "C07": {
         "technique": "model-based stateful property-based testing (rapid) on the real BaseApp pipeline: model counter vs decoded MessageSent nonces, responses and the query after every transaction",
         "level": "Exploration: generated transaction histories on the real SDK pipeline, every step compared with an independent counter model; search, not proof.",
-        "note": "Trusts cosmos-sdk rollback, the reference codec and the model ledger; counters never cross 2^64 within a history (D4).",
+        "note": "Trusts cosmos-sdk rollback, the reference codec and the model ledger; counters may wrap 2^64 within a history (D4 lifted).",
         "ref": "DESIGN.md section 3 C07",
     },
 }
+
+# ---- what the rules above do not yet say (features added while strengthening, DESIGN.md 9.6-9.6f) ----
+_PROBES = (" History generators also draw, with small per-step probabilities: rollback probes (a state change and a failing message in one transaction, "
+           "then transactions that use that piece of state), attester-change probes (enable/use/disable/use; one key under two spellings, one disabled, a third spelling tried), "
+           "double receives in one transaction, restarts (genesis export -> import; optional scalars equal to their defaults may be omitted) followed by re-submission of the most recently "
+           "accepted messages, re-registration of a token messenger before a replacement; genesis states may omit optional fields, hold a registry of >100 entries, case-variant burn limits, "
+           "odd attester entries or no attester, Noble's own domain id as a remote domain, counters next to 2^31/2^32/2^63/2^64.")
+for _k in ("C02", "C03", "C04", "C05", "C06", "C07", "C08", "C09", "C10", "C11", "C12", "C13", "C15", "C17", "C19"):
+    CONF[_k]["rule"] += _PROBES
+CONF["C01"]["rule"] += (" Directed prelude: quorums of 16, 17, 24, 32 and 33 signatures with an adjacent duplicate (same bytes / high-s twin), an adjacent swap at every position and an unknown signer at "
+                        "batch boundaries; keys algebraically related to enabled ones (negation, endomorphism multiples) as unknown signers. L2 also through replace-deposit-for-burn.")
+CONF["C14"]["rule"] += " Every fault plan is run twice: the failing call returns an error, resp. panics with the store's out-of-gas error."
+CONF["C17"]["rule"] += " In 1/15 of the genesis cases one list has 101..125 entries (more than a default query page)."
+CONF["C18"]["rule"] += (" The second process also replays each history alone in a fresh process (against the parent, which has executed everything), from initial height 30000001 with other block "
+                        "times and proposer (store root aside), and - directed histories with 16..256 required signatures, an adjacent duplicate at every position for the small ones - "
+                        "1.1 s later on one processor shared with 24 busy goroutines; a metamorphic replay without the failed multi-message transactions and a variant under other attester keys must agree as well.")
+CONF["C19"]["rule"] += " A registry is sometimes drained entry by entry; short hex spellings are asked right after an unrelated full-width token."
+CONF["C20"]["rule"] += (" Deterministic sweeps: one valid request of each of the 25 message types with every variable-length field resized to every length 0..72 (and 100..300), every account string replaced "
+                        "by well-formed bech32 of 0..256 payload bytes (L1, a subset through L2); hex/denom arguments of the single-item queries at every length 0..140 with and without 0x/0X; "
+                        "11 multi-byte/invalid sequences at every position 0..40 of two base58 strings for the CLI parser.")
+CONF["C16"]["rule"] += " Decodes are repeated into a value that already decoded another message; earlier encoder outputs are retained and must not change."
 
 _NOT_YET = "" or "check not built yet in this round (planned in DESIGN.md section 3); not claimed until it runs"
 NOT_APPLICABLE = [{"property_id": p, "reason": _NOT_YET} for p in ALL if p not in CONF]
